@@ -141,6 +141,11 @@ func newScriptEnv(c *lib.Ctx, fl flavour) *scriptEnv {
 		TargetFileSize: uint64(lib.Pick(r, []int{200, 1 << 20})), L0TableNumCompactionTrigger: lib.Pick(r, []int{1, 2, 4}),
 		TuneCompactor: true, MaxSizeAmplificationPercent: lib.Pick(r, []int{0, 50, 200}), SmallestLevelSize: int64(lib.Pick(r, []int{200, 256 << 20})), LevelSizeMultiplier: 10,
 	}
+	if e.keyGroups == 65535 {
+		// every deploy scans each of the 65535 key groups: with table files on disk that is minutes per deploy,
+		// so these cases keep the state in the memtable (their point is the key-group arithmetic, not the LSM)
+		e.tuning.MemTableSize, e.tuning.MaxWALSize, e.tuning.TargetFileSize = 1<<20, 1<<20, 1<<20
+	}
 	if fl.tinyCache {
 		// bytes for the whole operator, divided by the number of key groups it owns
 		e.tuning.TimerCacheBytes = uint64(lib.Pick(r, []int{1, 40, 40 * e.keyGroups, 200 * e.keyGroups, 1 << 30}))
